@@ -5,7 +5,8 @@ import os
 from .common import *
 
 BRIDGE_BUGS_OFF = {"BugGetInfoHardcoded": False, "BugReadAheadToClient": False, "BugDropReplyOnClose": False,
-                   "BugPanicNoChild": False, "BugAbortAfterUpgrade": False, "BugStaleCacheAfterInfo": False}
+                   "BugPanicNoChild": False, "BugAbortAfterUpgrade": False, "BugStaleCacheAfterInfo": False, "BugIgnoreServiceHangup": False}
+BRIDGE_INVS = ["Transparent", "SwitchesTargets", "UpgradePayloadToService", "StopsWhenServiceEnds", "GoodbyeForwarded", "ExitZero"]
 
 
 def check_C18(tier):
@@ -15,7 +16,7 @@ def check_C18(tier):
     env = {"VERIF_VARLINK_BIN": os.path.join(bins, "varlink")}
     thorough = tier == "thorough"
     cfg = write_cfg(os.path.join(res.wd, "MC_Bridge.cfg"), spec="MCSpec", constants=dict(BRIDGE_BUGS_OFF, MaxLen=3, Emit=True),
-                    invariants=["Transparent", "SwitchesTargets", "UpgradePayloadToService", "ExitZero", "EmitCase"], deadlock=True)
+                    invariants=BRIDGE_INVS + ["EmitCase"], deadlock=True)
     r = run_tlc("MC_Bridge", cfg, res.wd, workers=4, tag="bridge", timeout=1800)
     res.add_tlc(r)
     if r.violation:
@@ -48,7 +49,8 @@ def check_C18(tier):
     res.rule = ("MC_Bridge: request sequences (<= 3; quick replays all of length <= 2 and a fifth of those of length 3 that return to a target after "
                 "visiting another one, thorough all of those and a third of the rest) over {plain, more, oneway, error reply, request after which the service hangs up, service-info "
                 "query, upgrade at the end} x two services hosting different interfaces (targets switch) x client behaviour (pipelined / one at a "
-                "time) x upgraded payload (none / two lines, in the same write when pipelined) x mode {resolver lookup, --connect, --activate, "
+                "time) x upgraded payload (none / two lines, in the same write when pipelined) x who ends the upgraded session (client closes / "
+                "service says goodbye and hangs up while the client stays) x mode {resolver lookup, --connect, --activate, "
                 "--bridge}; real `varlink bridge` process between pipes and real services; compared: client-visible reply sequence, payload at "
                 "the service, exit status; non-trivial = distinct non-empty cases")
     res.exhaustive = True
